@@ -29,9 +29,18 @@
       on the state produced by the prologue (any threshold).
     * for complete runs (the generator has stopped; it does: C02_HS_full) every strictly more probable
       member was yielded before (C03_HS_more_probable_before).
-  NOT proved: the bucket-search version of the order invariant, heap search with a positive
-  threshold from scratch, and prefix completeness for a proper prefix of the run; checked on every
-  generated case (exact Fractions).
+    * GENERIC DEVELOPMENT (PS/Proofs/Enum/G*.lean: any priority type whose `combine` is monotone,
+      threshold, filter; the code after fix 53c3acb, `dropDeleted = false`), acyclic context-free
+      grammars, every fuel and every prefix of the run:
+        - heap search with ANY threshold and any filter, from scratch: non-increasing probabilities,
+          C03_HS_sorted_threshold (drops the prologue-state hypothesis of C03_HS_sorted_partial);
+        - PREFIX COMPLETENESS: once a program `q` has been yielded, every member of strictly larger
+          probability (above the threshold, all of whose sub-programs are accepted) was yielded
+          before `q`: C03_HS_prefix_complete (no filter: C03_HS_prefix_complete_nofilter);
+        - bucket search: the bucket tuples all have the size of the search and are non-decreasing for
+          `Bucket.__lt__`, C03_HS_bucket_sorted; prefix completeness C03_HS_bucket_prefix_complete.
+  NOT proved: recursive grammars (the statement is false there), TTCFGs that thread a state, the
+  unambiguous-grammar machine.
 -/
 import PS.Model.Enum.HeapSearch
 import PS.Proofs.Enum.Heapq
@@ -44,6 +53,7 @@ import PS.Proofs.Enum.HSOrder
 import PS.Proofs.Enum.HSOrderCheck
 import PS.Proofs.Enum.HSSorted
 import PS.Proofs.Enum.HSPrologueTotal
+import PS.Proofs.Enum.GInst
 namespace PS.C03HS
 open PS PS.G PS.HS
 
@@ -320,5 +330,100 @@ theorem finding_C03_HS_reentrant :
     ((1 : Rat)/64 < 3969/65536) := by
   decide +kernel
 end Reentrant
+
+/-! ### threshold, filter, prefix completeness, bucket search (generic development) -/
+section Generic
+open PS.HG
+variable {S : Type} [DecidableEq S]
+
+/-- **best-first order with any threshold and any filter, from scratch** (acyclic context-free
+    grammar, every fuel, every prefix): the yielded probabilities are non-increasing.
+    `HG.ProbHyp`: priorities `probOps t` with `0 ≤ t`, weights in `[0, 1]`, `rank` decreasing along
+    the rules, distinct keys, no empty row, every rule has a weight, the code after fix 53c3acb. -/
+theorem C03_HS_sorted_threshold (E : Env S Unit Rat) (rank : NT S Unit → Nat) (t : Rat) (P : ProbHyp E rank t)
+    (fuel k : Nat) (g' : Gen S Unit Rat) (out : List Prog) (b : Bool)
+    (h : take E fuel k (Gen.new E.G) [] = some (g', out, b)) :
+    out.Pairwise (fun p q => G.prob E.G E.W q E.G.start ≤ G.prob E.G E.W p E.G.start) :=
+  (prob_safe P fuel k g' out b h).2.2.2
+
+/-- **PREFIX COMPLETENESS** (every fuel, every prefix `l1 ++ q :: l2` of the run, stopped or not):
+    a member `p` of strictly larger probability than the yielded `q` — above the threshold, all of
+    whose sub-programs are accepted by the filter — occurs before `q` -/
+theorem C03_HS_prefix_complete (E : Env S Unit Rat) (rank : NT S Unit → Nat) (t : Rat) (P : ProbHyp E rank t)
+    (fuel k : Nat) (g' : Gen S Unit Rat) (l1 l2 : List Prog) (q p : Prog) (b : Bool)
+    (h : take E fuel k (Gen.new E.G) [] = some (g', l1 ++ q :: l2, b))
+    (hp : contains E.G p = true) (hcl : clean E.filter p = true)
+    (hthr : t < G.prob E.G E.W p E.G.start ∨ t = 0)
+    (hlt : G.prob E.G E.W q E.G.start < G.prob E.G E.W p E.G.start) : p ∈ l1 :=
+  prob_prefix_complete P fuel k g' l1 l2 q p b h (by rw [← contains_eq_gen]; exact hp) hcl hthr hlt
+
+/-- the statement of C03 for heap search as it is used (threshold 0, no filter): once a program of
+    probability `x` has been produced, every program of strictly larger probability has been produced -/
+theorem C03_HS_prefix_complete_nofilter (E : Env S Unit Rat) (rank : NT S Unit → Nat) (P : ProbHyp E rank 0)
+    (hf : ∀ p, E.filter p = true)
+    (fuel k : Nat) (g' : Gen S Unit Rat) (l1 l2 : List Prog) (q p : Prog) (b : Bool)
+    (h : take E fuel k (Gen.new E.G) [] = some (g', l1 ++ q :: l2, b))
+    (hp : contains E.G p = true)
+    (hlt : G.prob E.G E.W q E.G.start < G.prob E.G E.W p E.G.start) : p ∈ l1 :=
+  C03_HS_prefix_complete E rank 0 P fuel k g' l1 l2 q p b h hp (clean_of_all _ hf p) (Or.inr rfl) hlt
+
+/-- **bucket search: order by non-decreasing bucket tuple** (acyclic context-free grammar, any
+    filter, every fuel, every prefix): every yielded program has a bucket tuple of the size of the
+    search (`HG.bucketOf`: the sum of the buckets of its rules) and no later tuple is `<` an earlier one -/
+theorem C03_HS_bucket_sorted (E : Env S Unit Bucket) (rank : NT S Unit → Nat) (size : Nat)
+    (B : BucketHyp E rank size) (fuel k : Nat) (g' : Gen S Unit Bucket) (out : List Prog) (b : Bool)
+    (h : take E fuel k (Gen.new E.G) [] = some (g', out, b)) :
+    (∀ p ∈ out, (bucketOf E p).length = size) ∧
+    out.Pairwise (fun p q => Bucket.lt (bucketOf E q) (bucketOf E p) = false) :=
+  ⟨(bucket_safe B fuel k g' out b h).2.2.2.1, (bucket_safe B fuel k g' out b h).2.2.2.2⟩
+
+/-- bucket search, prefix completeness: a member (all of whose sub-programs are accepted) whose
+    bucket tuple is `<` the tuple of a yielded program has been yielded -/
+theorem C03_HS_bucket_prefix_complete (E : Env S Unit Bucket) (rank : NT S Unit → Nat) (size : Nat)
+    (B : BucketHyp E rank size) (fuel k : Nat) (g' : Gen S Unit Bucket) (out : List Prog) (b : Bool)
+    (h : take E fuel k (Gen.new E.G) [] = some (g', out, b)) (p q : Prog) (hq : q ∈ out)
+    (hp : contains E.G p = true) (hcl : clean E.filter p = true)
+    (hlt : Bucket.lt (bucketOf E p) (bucketOf E q) = true) : p ∈ out :=
+  bucket_prefix_complete B fuel k g' out b h p q hq (by rw [← contains_eq_gen]; exact hp) hcl hlt
+
+/-! non-vacuity: the grammar of the section Order with threshold 1/16 (heap search) and with
+    buckets of size 3 -/
+def tE : Env Nat Unit Rat := { G := oG, W := oW, ops := probOps (1/16), filter := fun _ => true, dropDeleted := false }
+def tE0 : Env Nat Unit Rat := { G := oG, W := oW, ops := probOps 0, filter := fun _ => true, dropDeleted := false }
+def bE : Env Nat Unit Bucket := { G := oG, W := oW, ops := bucketOps 3, filter := fun _ => true, dropDeleted := false }
+
+theorem tE_hyp : ProbHyp tE oRank (1/16) :=
+  probHyp_of_checks tE oRank (1/16) rfl (by decide +kernel) (by decide +kernel) (by decide) (by decide) (by decide)
+    (by decide) (by decide +kernel) rfl
+theorem tE0_hyp : ProbHyp tE0 oRank 0 :=
+  probHyp_of_checks tE0 oRank 0 rfl (by decide) (by decide +kernel) (by decide) (by decide) (by decide)
+    (by decide) (by decide +kernel) rfl
+theorem bE_hyp : BucketHyp bE oRank 3 :=
+  bucketHyp_of_checks bE oRank 3 rfl (by decide) (by decide) (by decide) (by decide) (by decide +kernel) rfl
+
+example : ∀ k g' out b, take tE 50 k (Gen.new oG) [] = some (g', out, b) →
+    out.Pairwise (fun p q => G.prob oG oW q oG.start ≤ G.prob oG oW p oG.start) :=
+  fun k g' out b h => C03_HS_sorted_threshold tE oRank (1/16) tE_hyp 50 k g' out b h
+
+/-- with threshold 1/16 the program of probability 1/32 is not produced -/
+example : (take tE 50 10 (Gen.new oG) []).map (fun r => (r.2.1.map (fun p => G.prob oG oW p oG.start), r.2.2)) =
+    some ([1/2, 9/32, 3/32, 3/32], true) := by decide +kernel
+
+/-- after 2 of the 5 programs (a proper prefix: the generator has not stopped) -/
+example : (take tE0 50 2 (Gen.new oG) []).map (fun r => (r.2.1.map (fun p => G.prob oG oW p oG.start), r.2.2)) =
+    some ([1/2, 9/32], false) := by decide +kernel
+example : ∀ g' l1 l2 q p b, take tE0 50 2 (Gen.new oG) [] = some (g', l1 ++ q :: l2, b) → contains oG p = true →
+    G.prob oG oW q oG.start < G.prob oG oW p oG.start → p ∈ l1 :=
+  fun g' l1 l2 q p b h hp hlt =>
+    C03_HS_prefix_complete_nofilter tE0 oRank tE0_hyp (fun _ => rfl) 50 2 g' l1 l2 q p b h hp hlt
+
+example : ∀ k g' out b, take bE 50 k (Gen.new oG) [] = some (g', out, b) →
+    (∀ p ∈ out, (bucketOf bE p).length = 3) ∧
+    out.Pairwise (fun p q => Bucket.lt (bucketOf bE q) (bucketOf bE p) = false) :=
+  fun k g' out b h => C03_HS_bucket_sorted bE oRank 3 bE_hyp 50 k g' out b h
+
+example : (take bE 50 10 (Gen.new oG) []).map (fun r => (r.2.1.map (bucketOf bE), r.2.2)) =
+    some ([[0, 1, 0], [0, 1, 2], [1, 1, 1], [1, 1, 1], [2, 1, 0]], true) := by decide +kernel
+end Generic
 
 end PS.C03HS
